@@ -1,7 +1,7 @@
 // Correspondence harness for property C15 (`$name`): the real TargetList / TargetComponent /
 // SimpleEntity / ScriptVM of /repo, same line protocol as lean/Driver/Target.lean.
 //
-//   universe snapshot=<b> fieldfan=<b> max=<n>     fresh ScriptContext (flags are for the model only)
+//   universe snapshot=<b> fieldfan=<b> max=<n>     fresh ScriptContext, `level.n = 0` (flags are for the model only)
 // host level (direct calls):
 //   spawn                       new SimpleEntity; ids are 1,2,... in creation order
 //   setname <o> <n>             o->GetTargetComponent().SetTargetName(name n)
@@ -210,6 +210,15 @@ int main()
             if (op == "universe" && t.size() == 4 && t[3].compare(0, 4, "max=") == 0) {
                 g_max = std::stoul(t[3].substr(4));
                 freshContext();
+                {
+                    // script-level bookkeeping: level.n = number of objects spawned so far
+                    static const std::string init = "main:\nlevel.n = 0\nend\n";
+                    imemstream stream(init.data(), init.size());
+                    const ProgramScript* s = g_ctx->GetDirector().GetProgramScript("init", stream, true);
+                    Event ev;
+                    g_ctx->GetDirector().ExecuteThread(s, ev, "main");
+                    g_out.str(""); g_out.clear();
+                }
                 // the model's `emptyName ≠ 0` and `normName`
                 say(const_str(ConstStrings::Empty) ? "ok" : "bad-universe empty-is-none");
                 continue;
